@@ -1,4 +1,5 @@
 import ScionVerif.Lemmas.SnapTun
+import ScionVerif.Lemmas.SnapTunConc
 /-!
 # C09 — the SNAP tunnel carries traffic only for identities authorised at that moment
 
@@ -296,6 +297,131 @@ theorem attribution_driver_model (ops : List (Op GoWg.Pkt)) (frm : Addr) (pkt : 
       (run GoWg.wg {} ops).reg.isAuthorized (run GoWg.wg {} ops).now id = some sd := by
   obtain ⟨id, h1, h2, h3, _⟩ := attribution GoWg.wg GoWg.sound ops frm pkt net pl sd peer h
   exact ⟨id, h1, h2, h3⟩
+
+/-! ## "schedules": concurrent `register` / `remove_expired` calls are equivalent to a sequential history
+
+`IdentityRegistry::update_state` is lock – load+clone – modify – store – unlock; the translator classifies its
+statements into `Generated.SnapTun.UPDATE_STEPS` and `Conc.program` is computed from that list.  The machine of
+`Model/RegistryConc.lean` runs `n` threads, thread `j` with an arbitrary modifier `fs j`, under an arbitrary
+schedule (a blocked `acquire` stutters).  Assumed about the libraries: `Mutex` is a mutex, `ArcSwap::load/store`
+are atomic. -/
+namespace Conc
+
+/-- Tie to the source: the code as it is now takes the write lock first and holds it to the end.  Stops checking
+when the `let _guard = self.write_lock.lock()…` statement disappears (seeded change C09-update-without-lock). -/
+theorem program_is_locked : UPDATE_UNDER_WRITE_LOCK = true ∧ program = lockedProgram := by decide
+
+/-- **Serialisability** (any number of threads, any modifiers, any schedule).  In every reachable configuration the
+threads that acquired the lock so far did so at most once each; and when all `n` calls have returned, every thread
+acquired it exactly once (`order` is a permutation of `0..n-1`), the lock is free and the shared state is the result
+of applying the modifiers **sequentially in acquisition order** to the initial state. -/
+theorem update_state_serializable {S : Type} (fs : Nat → S → S) (n : Nat) (σ0 : S) (sched : List Nat) :
+    let c := run fs n (init program σ0) sched
+    c.order.Nodup ∧ (∀ j ∈ c.order, j < n) ∧
+      (c.allDone n → c.lock = none ∧ c.order.Perm (List.range n) ∧ c.shared = seq fs σ0 c.order) := by
+  intro c
+  have h : Inv fs σ0 n c := by
+    show Inv fs σ0 n (run fs n (init program σ0) sched)
+    rw [program_is_locked.2]
+    exact inv_run (inv_init fs σ0 n) sched
+  exact ⟨h.nodup, h.mem, inv_allDone h⟩
+
+/-- **Readers see a prefix of that sequential history.**  At every moment of every execution the shared state (what
+`has_authorization` / `is_authorized` get from their single `load`) is the sequential result of a prefix `pre` of the
+acquisition order – all of it or all but the thread that currently holds the lock – and the acquisition order of
+any continuation `more` of the schedule extends the current one, so `pre` is a prefix of the final history too. -/
+theorem update_state_reads_prefix {S : Type} (fs : Nat → S → S) (n : Nat) (σ0 : S) (sched more : List Nat) :
+    let c := run fs n (init program σ0) sched
+    ∃ pre, pre <+: c.order ∧ c.order.length ≤ pre.length + 1 ∧ c.shared = seq fs σ0 pre ∧
+      pre <+: (run fs n (init program σ0) (sched ++ more)).order := by
+  intro c
+  have h : Inv fs σ0 n c := by
+    show Inv fs σ0 n (run fs n (init program σ0) sched)
+    rw [program_is_locked.2]
+    exact inv_run (inv_init fs σ0 n) sched
+  obtain ⟨pre, hp, hl, hs⟩ := inv_shared_prefix h
+  refine ⟨pre, hp, hl, hs, ?_⟩
+  rw [run_append]
+  exact List.IsPrefix.trans hp (order_prefix_run fs n c more)
+
+/-- **Connection to the sequential model.**  `n = calls.length` concurrent calls of `register` / `remove_expired`
+(each with its own `now`), any schedule: when all have returned, the registry is the result of applying the same
+calls one after the other in some order `perm` (a permutation of `calls`) – a sequential history, to which every
+sequential theorem above applies. -/
+theorem concurrent_updates_sequential (calls : List Call) (r0 : Registry) (sched : List Nat)
+    (hd : (run (callFs calls) calls.length (init program r0) sched).allDone calls.length) :
+    ∃ perm, perm.Perm calls ∧
+      (run (callFs calls) calls.length (init program r0) sched).shared = Call.runSeq r0 perm := by
+  obtain ⟨_, hmem, hfin⟩ := update_state_serializable (callFs calls) calls.length r0 sched
+  obtain ⟨_, hperm, hsh⟩ := hfin hd
+  refine ⟨_, ?_, hsh.trans (seq_callFs_eq_runSeq calls r0 _ hmem)⟩
+  have := hperm.filterMap (calls[·]?)
+  rwa [filterMap_getElem?_range] at this
+
+/-- Hence the registry invariant (one identity per key, one key per identity, associations = registrations) holds of
+the shared registry at **every** moment of every concurrent execution – whatever a reader loads satisfies it. -/
+theorem concurrent_registry_invariant (calls : List Call) (r0 : Registry) (h0 : r0.Inv) (sched : List Nat) :
+    (run (callFs calls) calls.length (init program r0) sched).shared.Inv := by
+  obtain ⟨pre, _, _, hs, _⟩ := update_state_reads_prefix (callFs calls) calls.length r0 sched []
+  rw [hs]
+  exact seq_callFs_inv calls h0 pre
+
+/-- **Supersession under concurrency** (the scenario of review finding 7, for any number of concurrent calls and any
+schedule).  Token key `k` is bound to identity `A`.  Among the concurrent calls there is a registration of another
+identity `B` under `k`, and none of them registers `A` (so `B ≠ A`).  When all calls have returned, `A` is authorised at no
+instant – no update is lost, whatever the interleaving. -/
+theorem concurrent_supersede_unauthorized (calls : List Call) (r0 : Registry) (h0 : r0.Inv) (k : Key) (A B : Id)
+    (hk : r0.assoc.get? k = some A) (now0 : Time) (life0 : Nat)
+    (hin : Call.register now0 k B life0 ∈ calls) (hno : ∀ c ∈ calls, ¬ c.registers A) (sched : List Nat)
+    (hd : (run (callFs calls) calls.length (init program r0) sched).allDone calls.length) (t : Time) :
+    (run (callFs calls) calls.length (init program r0) sched).shared.isAuthorized t A = none := by
+  obtain ⟨perm, hperm, hsh⟩ := concurrent_updates_sequential calls r0 sched hd
+  rw [hsh]
+  exact Call.runSeq_superseded perm (fun c hc => hno c (hperm.mem_iff.mp hc)) _ (hperm.mem_iff.mpr hin)
+    ⟨now0, B, life0, rfl⟩ h0 (Or.inr (AMap.mem_of_get? hk))
+
+/-! ### the lock is needed: the same machine without `acquire`/`release` loses an update
+
+`programOf [1, 2, 3]` is what the translator emits when the lock statement is missing (or bound to `_`).  Registry:
+token key 1 → identity 10.  Thread 0 registers identity 11 under key 1 (supersedes 10), thread 1 registers identity 12
+under key 2.  Schedule: both load, both modify, thread 0 stores, thread 1 stores.  Thread 0's update is lost: the
+result is that of NO sequential order, and the superseded identity 10 is still authorised. -/
+namespace Witness
+def r0 : Registry := (({} : Registry).register 0 1 10 100).1
+def calls : List Call := [.register 0 1 11 100, .register 0 2 12 100]
+def sched : List Nat := [0, 1, 0, 1, 0, 1]
+def unlocked : Config Registry := run (callFs calls) 2 (init (programOf [1, 2, 3]) r0) sched
+end Witness
+
+theorem lost_update_without_lock_witness :
+    programOf [1, 2, 3] = [.load, .modify, .store] ∧
+    Witness.unlocked.allDone 2 ∧
+    Witness.unlocked.shared.isAuthorized 50 10 = some () ∧
+    Witness.unlocked.shared.isAuthorized 50 11 = none ∧
+    (∀ perm, perm ∈ [Witness.calls, Witness.calls.reverse] → Witness.unlocked.shared ≠ Call.runSeq Witness.r0 perm) := by
+  decide
+
+-- non-vacuity: the same calls under the same (and under a blocked-thread) schedule WITH the lock all return, and the
+-- superseded identity is not authorised; `allDone` is reachable
+example : (run (callFs Witness.calls) 2 (init program Witness.r0) [0, 1, 0, 1, 0, 1, 0, 0, 1, 1, 1, 1, 1]).allDone 2 := by
+  decide
+example : (run (callFs Witness.calls) 2 (init program Witness.r0) [0, 1, 0, 1, 0, 1, 0, 0, 1, 1, 1, 1, 1]).shared.isAuthorized
+    50 10 = none := by decide
+example : (run (callFs Witness.calls) 2 (init program Witness.r0) [0, 1, 0, 1, 0, 1, 0, 0, 1, 1, 1, 1, 1]).order = [0, 1] := by
+  decide
+-- hypotheses of `concurrent_supersede_unauthorized` are satisfiable (key 1 bound to 10, call 0 registers 11 under key 1)
+example : Witness.r0.Inv ∧ Witness.r0.assoc.get? 1 = some 10 ∧ Call.register 0 1 11 100 ∈ Witness.calls ∧
+    (∀ c ∈ Witness.calls, ¬ c.registers 10) :=
+  ⟨Registry.addIdentity_inv Registry.inv_empty _ _ _, by decide, by decide, by
+    intro c hc; simp only [Witness.calls, List.mem_cons, List.mem_nil_iff, or_false] at hc
+    rcases hc with rfl | rfl <;> simp [Call.registers]⟩
+-- thread 1 first: the other sequential history, same verdict for the superseded identity
+example : (run (callFs Witness.calls) 2 (init program Witness.r0) [1, 0, 1, 1, 0, 1, 1, 0, 0, 0, 0, 0]).order = [1, 0] := by
+  decide
+-- a reader in the middle (thread 0 holds the lock and has not stored) sees the pre-state: identity 10 still authorised
+example : (run (callFs Witness.calls) 2 (init program Witness.r0) [0, 0, 0]).shared = Witness.r0 := by decide
+
+end Conc
 
 /-! ## non-vacuity: a concrete WireGuard stand-in and concrete histories -/
 
